@@ -374,7 +374,7 @@ def big_bound_programs():
 
 RAW_VALID = ['()', '()(a)', 'a()b', '(|a)', '(a|)', '(())', '(?:)', '(?i:)', '(?=)', '(?!)', '(?<=)', 'a(?:)b', '[()]', '\\(\\)', '(\\()', '(?P<n>)',
              '((a)|(b))', '(a)|(b)', '(?:a|b)c', 'x*', '.{2,3}?', '\\b\\B', '(?#comment)a', 'a{0}', '$^', '(a)()', '()*', '(?:()|a)+', '[)]', '[(]', '(\\))',
-             '(?P<n>a)(?P=n)', '(a)\\1', '(?(1)a|b)', '(a)?(?(1)b)', '\\A\\Z', '(?s:.)', 'a|', '|', '||a', '(?:|)', '(a||b)']
+             '(?#c)', '(?#c)a|b', '(?>a|ab)c', 'a*+', '(?=a)b', '(?<!a)b|c', '(?i:a)|b', '[]]', '[^]]', '(?P<n>a)(?P=n)', '(a)\\1', '(?(1)a|b)', '(a)?(?(1)b)', '\\A\\Z', '(?s:.)', 'a|', '|', '||a', '(?:|)', '(a||b)']
 
 
 def raw_valid_programs():
